@@ -436,7 +436,7 @@ func VerifC13_lengths() {
 	if neg {
 		data = append(data, '-')
 	}
-	ks := []int{1, 2, 7, 10, 19, 20}
+	ks := []int{1, 2, 19, 7, 10, 20}
 	k := ks[verifChoose(verifParam("n_digit_counts", 4))]
 	ds := verifNondetBytes(k)
 	var v int64
